@@ -1,10 +1,356 @@
-(* Proofs about Model/Stress.v and the rotation laws (C09) *)
+(* Proofs for C09: joint rotation by whole bins (and mirroring) of spectrum and wind on a uniform
+   direction grid.  Fields shift by k bins, bulk rates are invariant, the stress vector rotates. *)
 From Coq Require Import Reals List Arith ZArith Lia Lra.
-From OSU.Lib Require Import SrcAuxDefs SrcAuxLemmas.
+From OSU.Lib Require Import SrcAuxDefs SrcAuxLemmas SrcAuxRot SrcAuxAtan2.
 From OSU.Model Require Import SourceTerms Stress.
 From OSU.Proofs Require Import SourceTerms.
 Import ListNotations.
 Open Scope R_scope.
 
-Lemma tail_mag_def : forall t, fst (tail_stress_mag_dir t) = sqrt (snd t ^ 2 + fst t ^ 2).
-Proof. reflexivity. Qed.
+(* ------------------------------------------------------------------ *)
+(* vocabulary                                                           *)
+(* ------------------------------------------------------------------ *)
+(* uniform direction grid: theta_j = th0 + j 2pi/N (radians), constant bin width (degrees) *)
+Definition uniform_dirs (g : grid) (th0 dstep : R) : Prop :=
+  forall j, (j < ndir g)%nat -> gth g j = ang th0 (ndir g) j /\ gdth g j = dstep.
+Definition well_shaped (g : grid) (E : field) : Prop :=
+  length E = nfreq g /\ forall i, (i < nfreq g)%nat -> length (nth i E []) = ndir g.
+(* wind turned by k bins (k * 360/N degrees) / mirrored *)
+Definition rot_wind (w : wind) (k N : nat) : wind :=
+  mkwind (wspeed w) (wdir w + INR k * (360 / INR N)) (wkind w).
+Definition mir_wind (w : wind) : wind := mkwind (wspeed w) (- wdir w) (wkind w).
+(* S' is S shifted by k bins / mirrored, on an nf x N grid *)
+Definition shifted (nf N k : nat) (S' S : field) : Prop :=
+  forall i j, (i < nf)%nat -> (j < N)%nat -> fnth S' i j = fnth S i (ridx N j k).
+Definition mirrored (nf N : nat) (S' S : field) : Prop :=
+  forall i j, (i < nf)%nat -> (j < N)%nat -> fnth S' i j = fnth S i (midx N j).
+(* rotation of a vector (east, north) by the angle a *)
+Definition rotate2 (a : R) (v : R * R) : R * R :=
+  (cos a * fst v - sin a * snd v, sin a * fst v + cos a * snd v).
+Definition rot_angle (k N : nat) : R := INR k * (2 * PI / INR N).
+
+Lemma rot_field_shifted : forall g E k, well_shaped g E -> (k < ndir g)%nat ->
+  shifted (nfreq g) (ndir g) k (rot_field k E) E.
+Proof.
+  intros g E k (Hl & Hr) Hk i j Hi Hj.
+  rewrite (fnth_rot_field k E i j (ndir g)); [|lia|apply Hr; exact Hi|exact Hj].
+  rewrite ridx_mod by exact Hk. reflexivity.
+Qed.
+
+Lemma mir_field_mirrored : forall g E, well_shaped g E ->
+  mirrored (nfreq g) (ndir g) (mir_field E) E.
+Proof.
+  intros g E (Hl & Hr) i j Hi Hj.
+  rewrite (fnth_mir_field E i j (ndir g)); [reflexivity|lia|apply Hr; exact Hi|exact Hj].
+Qed.
+
+Lemma fv_rot : forall p w k N z0, friction_velocity p (rot_wind w k N) z0 = friction_velocity p w z0.
+Proof. intros. reflexivity. Qed.
+Lemma fv_mir : forall p w z0, friction_velocity p (mir_wind w) z0 = friction_velocity p w z0.
+Proof. intros. reflexivity. Qed.
+
+Lemma rot_wind_rad : forall w k N, (0 < N)%nat ->
+  wdir (rot_wind w k N) * PI / 180 = wdir w * PI / 180 + rot_angle k N.
+Proof. intros. unfold rot_wind, rot_angle. cbn [wdir]. apply wind_rot_rad. assumption. Qed.
+
+Lemma mir_wind_rad : forall w, wdir (mir_wind w) * PI / 180 = - (wdir w * PI / 180).
+Proof. intros. unfold mir_wind. cbn [wdir]. field. Qed.
+
+(* ------------------------------------------------------------------ *)
+(* ST4 wind input: the field shifts by k bins / is mirrored              *)
+(* ------------------------------------------------------------------ *)
+Theorem st4_input_k_rot : forall p w z0 g ks E th0 ds k,
+  uniform_dirs g th0 ds -> (k < ndir g)%nat -> well_shaped g E ->
+  shifted (nfreq g) (ndir g) k
+          (st4_input_k p (rot_wind w k (ndir g)) z0 g ks (rot_field k E))
+          (st4_input_k p w z0 g ks E).
+Proof.
+  intros p w z0 g ks E th0 ds k Hu Hk Hs i j Hi Hj.
+  assert (HN : (0 < ndir g)%nat) by lia.
+  pose proof (ridx_lt (ndir g) j k HN) as Hr.
+  rewrite !st4_input_k_entry by assumption.
+  rewrite fv_rot, rot_wind_rad by exact HN.
+  rewrite (rot_field_shifted g E k Hs Hk i j Hi Hj).
+  destruct (Hu j Hj) as [-> _]. destruct (Hu _ Hr) as [-> _].
+  unfold rot_angle. rewrite cos_rel_rot by assumption. reflexivity.
+Qed.
+
+Theorem st4_input_rot : forall p w depth z0 g E th0 ds k,
+  uniform_dirs g th0 ds -> (k < ndir g)%nat -> well_shaped g E ->
+  shifted (nfreq g) (ndir g) k
+          (st4_input p (rot_wind w k (ndir g)) depth z0 g (rot_field k E))
+          (st4_input p w depth z0 g E).
+Proof. intros. unfold st4_input. eapply st4_input_k_rot; eassumption. Qed.
+
+Theorem st4_input_k_mirror : forall p w z0 g ks E ds,
+  uniform_dirs g 0 ds -> well_shaped g E ->
+  mirrored (nfreq g) (ndir g)
+           (st4_input_k p (mir_wind w) z0 g ks (mir_field E))
+           (st4_input_k p w z0 g ks E).
+Proof.
+  intros p w z0 g ks E ds Hu Hs i j Hi Hj.
+  assert (HN : (0 < ndir g)%nat) by lia.
+  pose proof (midx_lt (ndir g) j HN) as Hr.
+  rewrite !st4_input_k_entry by assumption.
+  rewrite fv_mir, mir_wind_rad.
+  rewrite (mir_field_mirrored g E Hs i j Hi Hj).
+  destruct (Hu j Hj) as [-> _]. destruct (Hu _ Hr) as [-> _].
+  rewrite cos_rel_mirror by assumption. reflexivity.
+Qed.
+
+Theorem st4_input_mirror : forall p w depth z0 g E ds,
+  uniform_dirs g 0 ds -> well_shaped g E ->
+  mirrored (nfreq g) (ndir g)
+           (st4_input p (mir_wind w) depth z0 g (mir_field E))
+           (st4_input p w depth z0 g E).
+Proof. intros. unfold st4_input. eapply st4_input_k_mirror; eassumption. Qed.
+
+(* ------------------------------------------------------------------ *)
+(* bulk rates are invariant                                             *)
+(* ------------------------------------------------------------------ *)
+Theorem bulk_shift_invariant : forall g th0 ds k S' S,
+  uniform_dirs g th0 ds -> (k < ndir g)%nat -> shifted (nfreq g) (ndir g) k S' S ->
+  bulk g S' = bulk g S.
+Proof.
+  intros g th0 ds k S' S Hu Hk Hsh. rewrite !bulk_is_integral.
+  assert (HN : (0 < ndir g)%nat) by lia.
+  apply rsum_ext. intros i Hi.
+  rewrite (rsum_ext _ (fun j => (fun m => fnth S i m * gdf g i * ds) (ridx (ndir g) j k)) (ndir g)).
+  2:{ intros j Hj. cbv beta. rewrite (Hsh i j Hi Hj). destruct (Hu j Hj) as [_ ->]. reflexivity. }
+  rewrite (rsum_ridx (fun m => fnth S i m * gdf g i * ds)) by exact Hk.
+  apply rsum_ext. intros j Hj. destruct (Hu j Hj) as [_ ->]. reflexivity.
+Qed.
+
+Theorem bulk_mirror_invariant : forall g ds S' S,
+  uniform_dirs g 0 ds -> (0 < ndir g)%nat -> mirrored (nfreq g) (ndir g) S' S ->
+  bulk g S' = bulk g S.
+Proof.
+  intros g ds S' S Hu HN Hsh. rewrite !bulk_is_integral.
+  apply rsum_ext. intros i Hi.
+  rewrite (rsum_ext _ (fun j => (fun m => fnth S i m * gdf g i * ds) (midx (ndir g) j)) (ndir g)).
+  2:{ intros j Hj. cbv beta. rewrite (Hsh i j Hi Hj). destruct (Hu j Hj) as [_ ->]. reflexivity. }
+  rewrite (rsum_midx (fun m => fnth S i m * gdf g i * ds)) by exact HN.
+  apply rsum_ext. intros j Hj. destruct (Hu j Hj) as [_ ->]. reflexivity.
+Qed.
+
+Corollary st4_input_bulk_rot : forall p w depth z0 g E th0 ds k,
+  uniform_dirs g th0 ds -> (k < ndir g)%nat -> well_shaped g E ->
+  bulk g (st4_input p (rot_wind w k (ndir g)) depth z0 g (rot_field k E))
+  = bulk g (st4_input p w depth z0 g E).
+Proof.
+  intros. eapply bulk_shift_invariant; [eassumption|eassumption|].
+  eapply st4_input_rot; eassumption.
+Qed.
+
+Corollary st4_input_bulk_mirror : forall p w depth z0 g E ds,
+  uniform_dirs g 0 ds -> (0 < ndir g)%nat -> well_shaped g E ->
+  bulk g (st4_input p (mir_wind w) depth z0 g (mir_field E)) = bulk g (st4_input p w depth z0 g E).
+Proof.
+  intros. eapply bulk_mirror_invariant; [eassumption|eassumption|].
+  eapply st4_input_mirror; eassumption.
+Qed.
+
+(* ------------------------------------------------------------------ *)
+(* the resolved stress vector rotates with the field                     *)
+(* ------------------------------------------------------------------ *)
+Lemma rotate2_add : forall a u v,
+  rotate2 a (fst u + fst v, snd u + snd v)
+  = (fst (rotate2 a u) + fst (rotate2 a v), snd (rotate2 a u) + snd (rotate2 a v)).
+Proof. intros a [u1 u2] [v1 v2]. unfold rotate2. cbn [fst snd]. f_equal; ring. Qed.
+
+Lemma rotate2_scal : forall a c v,
+  rotate2 a (fst v * c, snd v * c) = (fst (rotate2 a v) * c, snd (rotate2 a v) * c).
+Proof. intros a c [v1 v2]. unfold rotate2. cbn [fst snd]. f_equal; ring. Qed.
+
+Lemma rsum_rot_lin1 : forall c s A B n,
+  rsum (fun i => c * A i - s * B i) n = c * rsum A n - s * rsum B n.
+Proof.
+  intros. replace (c * rsum A n - s * rsum B n) with (c * rsum A n + (- s) * rsum B n) by ring.
+  rewrite <- rsum_lin. apply rsum_ext. intros; ring.
+Qed.
+Lemma rsum_rot_lin2 : forall c s A B n,
+  rsum (fun i => s * A i + c * B i) n = s * rsum A n + c * rsum B n.
+Proof. intros. rewrite <- rsum_lin. reflexivity. Qed.
+
+Theorem resolved_stress_rot : forall p g ks th0 ds k S' S,
+  uniform_dirs g th0 ds -> (k < ndir g)%nat -> shifted (nfreq g) (ndir g) k S' S ->
+  resolved_stress p g ks S' = rotate2 (rot_angle k (ndir g)) (resolved_stress p g ks S).
+Proof.
+  intros p g ks th0 ds k S' S Hu Hk Hsh.
+  assert (HN : (0 < ndir g)%nat) by lia.
+  unfold resolved_stress. cbv zeta. rewrite !sum2_upto_rsum.
+  set (a := rot_angle k (ndir g)).
+  set (X := fun i m => ds * fnth S i m * (rnth ks i / gw g i * gdf g i)).
+  (* inner sums of the shifted field *)
+  assert (Hc' : forall i, (i < nfreq g)%nat ->
+     rsum (fun j => cos (gth g j) * gdth g j * fnth S' i j * (rnth ks i / gw g i * gdf g i)) (ndir g)
+     = cos a * rsum (fun j => cos (ang th0 (ndir g) j) * X i j) (ndir g)
+       - sin a * rsum (fun j => sin (ang th0 (ndir g) j) * X i j) (ndir g)).
+  { intros i Hi. unfold a, rot_angle. rewrite <- (rsum_cos_rot (ndir g) k th0 (X i) Hk).
+    apply rsum_ext. intros j Hj. destruct (Hu j Hj) as [-> ->]. rewrite (Hsh i j Hi Hj). unfold X. ring. }
+  assert (Hs' : forall i, (i < nfreq g)%nat ->
+     rsum (fun j => sin (gth g j) * gdth g j * fnth S' i j * (rnth ks i / gw g i * gdf g i)) (ndir g)
+     = sin a * rsum (fun j => cos (ang th0 (ndir g) j) * X i j) (ndir g)
+       + cos a * rsum (fun j => sin (ang th0 (ndir g) j) * X i j) (ndir g)).
+  { intros i Hi. unfold a, rot_angle. rewrite <- (rsum_sin_rot (ndir g) k th0 (X i) Hk).
+    apply rsum_ext. intros j Hj. destruct (Hu j Hj) as [-> ->]. rewrite (Hsh i j Hi Hj). unfold X. ring. }
+  assert (Hc : forall i, rsum (fun j => cos (gth g j) * gdth g j * fnth S i j * (rnth ks i / gw g i * gdf g i)) (ndir g)
+                         = rsum (fun j => cos (ang th0 (ndir g) j) * X i j) (ndir g)).
+  { intros i. apply rsum_ext. intros j Hj. destruct (Hu j Hj) as [-> ->]. unfold X. ring. }
+  assert (Hs : forall i, rsum (fun j => sin (gth g j) * gdth g j * fnth S i j * (rnth ks i / gw g i * gdf g i)) (ndir g)
+                         = rsum (fun j => sin (ang th0 (ndir g) j) * X i j) (ndir g)).
+  { intros i. apply rsum_ext. intros j Hj. destruct (Hu j Hj) as [-> ->]. unfold X. ring. }
+  rewrite (rsum_ext _ _ (nfreq g) Hc'), (rsum_ext _ _ (nfreq g) Hs').
+  rewrite (rsum_ext _ _ (nfreq g) (fun i _ => Hc i)), (rsum_ext _ _ (nfreq g) (fun i _ => Hs i)).
+  rewrite rsum_rot_lin1, rsum_rot_lin2. unfold rotate2. cbn [fst snd]. f_equal; ring.
+Qed.
+
+(* ------------------------------------------------------------------ *)
+(* the WAM tail stress vector rotates                                    *)
+(* ------------------------------------------------------------------ *)
+Theorem tail_stress_rot : forall p w z0 g x0 E th0 ds k,
+  uniform_dirs g th0 ds -> (k < ndir g)%nat -> well_shaped g E ->
+  tail_stress_wam p (rot_wind w k (ndir g)) z0 g x0 (rot_field k E)
+  = rotate2 (rot_angle k (ndir g)) (tail_stress_wam p w z0 g x0 E).
+Proof.
+  intros p w z0 g x0 E th0 ds k Hu Hk Hs.
+  assert (HN : (0 < ndir g)%nat) by lia.
+  unfold tail_stress_wam. cbv zeta.
+  rewrite fv_rot, rot_wind_rad by exact HN.
+  set (a := rot_angle k (ndir g)). set (wdr := wdir w * PI / 180).
+  rewrite !sum_upto_rsum.
+  set (last := (nfreq g - 1)%nat).
+  set (X := fun m => let cm := cos (ang th0 (ndir g) m - wdr) in
+                     if Rle_dec cm 0 then 0 else cm ^ 2 * fnth E last m * ds).
+  assert (Hterm' : forall trig j, (j < ndir g)%nat ->
+     tail_dir_term g (wdr + a) (rot_field k E) trig j = trig (ang th0 (ndir g) j) * X (ridx (ndir g) j k)).
+  { intros trig j Hj. unfold tail_dir_term, X. cbv zeta. fold last.
+    destruct (Hu j Hj) as [-> ->].
+    unfold a, rot_angle. rewrite cos_rel_rot by assumption.
+    destruct (le_lt_dec (nfreq g) last) as [Hl|Hl].
+    - (* nfreq g = 0: every entry is 0 *)
+      assert (Hz : forall F m, fnth F last m = 0 \/ True) by (intros; right; exact I).
+      unfold fnth at 1. unfold rot_field.
+      rewrite (nth_overflow (map (rot_row k) E)) by (rewrite map_length; destruct Hs as [-> _]; exact Hl).
+      unfold fnth. rewrite (nth_overflow E) by (destruct Hs as [-> _]; exact Hl).
+      destruct j; destruct (ridx (ndir g) _ k); destruct (Rle_dec _ 0); cbn; ring.
+    - rewrite (rot_field_shifted g E k Hs Hk last j Hl Hj).
+      destruct (Rle_dec _ 0); ring. }
+  assert (Hterm : forall trig j, (j < ndir g)%nat ->
+     tail_dir_term g wdr E trig j = trig (ang th0 (ndir g) j) * X j).
+  { intros trig j Hj. unfold tail_dir_term, X. cbv zeta. fold last.
+    destruct (Hu j Hj) as [-> ->]. destruct (Rle_dec _ 0); ring. }
+  rewrite (rsum_ext _ _ (ndir g) (Hterm' cos)), (rsum_ext _ _ (ndir g) (Hterm' sin)).
+  rewrite (rsum_ext _ _ (ndir g) (Hterm cos)), (rsum_ext _ _ (ndir g) (Hterm sin)).
+  rewrite (rsum_cos_rot (ndir g) k th0 X Hk), (rsum_sin_rot (ndir g) k th0 X Hk).
+  fold (rot_angle k (ndir g)). fold a.
+  rewrite cos_plus, sin_plus. unfold rotate2. cbn [fst snd]. f_equal; ring.
+Qed.
+
+(* ------------------------------------------------------------------ *)
+(* total stress: vector rotates, magnitude invariant, direction + alpha  *)
+(* ------------------------------------------------------------------ *)
+Theorem total_stress_vec_rot : forall p w depth z0 g x0 E th0 ds k,
+  uniform_dirs g th0 ds -> (k < ndir g)%nat -> well_shaped g E ->
+  total_stress_vec p (rot_wind w k (ndir g)) depth z0 g x0 (rot_field k E)
+  = rotate2 (rot_angle k (ndir g)) (total_stress_vec p w depth z0 g x0 E).
+Proof.
+  intros p w depth z0 g x0 E th0 ds k Hu Hk Hs.
+  assert (HN : (0 < ndir g)%nat) by lia.
+  unfold total_stress_vec. cbv zeta.
+  rewrite (resolved_stress_rot p g _ th0 ds k _ (st4_input p w depth z0 g E) Hu Hk
+             (st4_input_rot p w depth z0 g E th0 ds k Hu Hk Hs)).
+  rewrite (tail_stress_rot p w z0 g x0 E th0 ds k Hu Hk Hs).
+  rewrite fv_rot, rot_wind_rad by exact HN.
+  rewrite cos_plus, sin_plus. unfold rotate2. cbn [fst snd]. f_equal; ring.
+Qed.
+
+Lemma rotate2_norm : forall a v,
+  snd (rotate2 a v) ^ 2 + fst (rotate2 a v) ^ 2 = snd v ^ 2 + fst v ^ 2.
+Proof.
+  intros a [e n]. unfold rotate2. cbn [fst snd].
+  apply rot_norm. rewrite <- (sin2_cos2 a). unfold Rsqr. ring.
+Qed.
+
+Lemma rotate2_nonzero : forall a v, (fst v <> 0 \/ snd v <> 0) ->
+  (fst (rotate2 a v) <> 0 \/ snd (rotate2 a v) <> 0).
+Proof.
+  intros a v H.
+  destruct (Req_dec (fst (rotate2 a v)) 0) as [H1|H1]; [|left; exact H1].
+  destruct (Req_dec (snd (rotate2 a v)) 0) as [H2|H2]; [|right; exact H2].
+  exfalso. pose proof (rotate2_norm a v) as Hn. rewrite H1, H2 in Hn.
+  assert (0 <= fst v ^ 2) by apply pow2_ge_0. assert (0 <= snd v ^ 2) by apply pow2_ge_0.
+  assert (Hz : snd v ^ 2 + fst v ^ 2 = 0) by lra.
+  assert (fst v ^ 2 = 0) by lra. assert (snd v ^ 2 = 0) by lra.
+  destruct H as [H|H]; apply H.
+  - apply (pow_nonzero _ 2%nat) in H. contradiction.
+  - apply (pow_nonzero _ 2%nat) in H. contradiction.
+Qed.
+
+(* direction of a rotated vector, in vector form: cos/sin of (dir' in radians) = cos/sin of (dir + a) *)
+Lemma dir_deg_rotate : forall a v, (fst v <> 0 \/ snd v <> 0) ->
+  let d := dir_deg (snd v) (fst v) in
+  let d' := dir_deg (snd (rotate2 a v)) (fst (rotate2 a v)) in
+  cos (d' * PI / 180) = cos (d * PI / 180 + a) /\ sin (d' * PI / 180) = sin (d * PI / 180 + a).
+Proof.
+  intros a v H d d'.
+  destruct (dir_deg_spec (fst v) (snd v) H) as [Hc Hs].
+  destruct (dir_deg_spec _ _ (rotate2_nonzero a v H)) as [Hc' Hs'].
+  fold d in Hc, Hs. fold d' in Hc', Hs'.
+  rewrite Hc', Hs', cos_plus, sin_plus, Hc, Hs.
+  assert (Hn : sqrt (fst (rotate2 a v) ^ 2 + snd (rotate2 a v) ^ 2) = sqrt (fst v ^ 2 + snd v ^ 2)).
+  { f_equal. pose proof (rotate2_norm a v). lra. }
+  rewrite Hn. pose proof (norm_pos _ _ H) as Hr.
+  destruct v as [e n]. unfold rotate2. cbn [fst snd] in *. split; field; lra.
+Qed.
+
+Theorem total_stress_point_rot : forall p w depth z0 g x0 E th0 ds k,
+  uniform_dirs g th0 ds -> (k < ndir g)%nat -> well_shaped g E ->
+  friction_velocity p w z0 <> 0 ->
+  let v := total_stress_vec p w depth z0 g x0 E in
+  (fst v <> 0 \/ snd v <> 0) ->
+  exists d d',
+    total_stress_point p w depth z0 g x0 E = (sqrt (snd v ^ 2 + fst v ^ 2), Some d) /\
+    total_stress_point p (rot_wind w k (ndir g)) depth z0 g x0 (rot_field k E)
+      = (sqrt (snd v ^ 2 + fst v ^ 2), Some d') /\
+    0 <= d' < 360 /\
+    cos (d' * PI / 180) = cos ((d + INR k * (360 / INR (ndir g))) * PI / 180) /\
+    sin (d' * PI / 180) = sin ((d + INR k * (360 / INR (ndir g))) * PI / 180).
+Proof.
+  intros p w depth z0 g x0 E th0 ds k Hu Hk Hs Hfv v Hv.
+  assert (HN : (0 < ndir g)%nat) by lia.
+  unfold total_stress_point. rewrite fv_rot.
+  destruct (Req_EM_T (friction_velocity p w z0) 0) as [Hz|_]; [contradiction|].
+  cbv zeta. rewrite (total_stress_vec_rot p w depth z0 g x0 E th0 ds k Hu Hk Hs). fold v.
+  eexists. eexists. split; [reflexivity|]. split.
+  - rewrite rotate2_norm. reflexivity.
+  - split; [apply dir_deg_range|].
+    rewrite wind_rot_rad by exact HN.
+    exact (dir_deg_rotate (rot_angle k (ndir g)) v Hv).
+Qed.
+
+(* the function whose root is the roughness length is the same function for the rotated problem
+   (the solver therefore visits the same values: roughness, drag and friction velocity coincide) *)
+Theorem stress_iteration_function_rot : forall p w depth g x0of E th0 ds k l,
+  uniform_dirs g th0 ds -> (k < ndir g)%nat -> well_shaped g E ->
+  stress_iteration_function p (rot_wind w k (ndir g)) depth g x0of (rot_field k E) l
+  = stress_iteration_function p w depth g x0of E l.
+Proof.
+  intros p w depth g x0of E th0 ds k l Hu Hk Hs.
+  unfold stress_iteration_function. cbv zeta. rewrite fv_rot. f_equal.
+  unfold total_stress_point. rewrite fv_rot.
+  destruct (Req_EM_T _ 0); [reflexivity|]. cbv zeta. cbn [fst].
+  rewrite (total_stress_vec_rot p w depth (exp l) g (x0of (exp l)) E th0 ds k Hu Hk Hs).
+  rewrite rotate2_norm. reflexivity.
+Qed.
+
+(* any solver, seen as a function of the function it is applied to, returns the same result *)
+Theorem solver_ext : forall (solver : (R -> R) -> R) p w depth g x0of E th0 ds k,
+  uniform_dirs g th0 ds -> (k < ndir g)%nat -> well_shaped g E ->
+  (forall f f', (forall l, f l = f' l) -> solver f = solver f') ->
+  solver (stress_iteration_function p (rot_wind w k (ndir g)) depth g x0of (rot_field k E))
+  = solver (stress_iteration_function p w depth g x0of E).
+Proof.
+  intros solver p w depth g x0of E th0 ds k Hu Hk Hs Hext. apply Hext.
+  intros l. eapply stress_iteration_function_rot; eassumption.
+Qed.
